@@ -26,6 +26,10 @@ def run(chk):
     numrules.rule_strict_numbers(chk, prog, "C16.X6")
     numrules.rule_trailing_after_number(chk, prog, "C16.X8n")
     numrules.rule_literals(chk, prog, None, "C16.X4.strict", "C16.X4.default")
+    with chk.shared():
+        # strict mode stays strict: the reset that must follow every error keeps the flags (shared with C04)
+        from . import c04
+        c04.r5(chk, prog, [(tokauto.get_table(prog, 0, 2), "default")])
     chk.undecided_clauses += [
         "number tokens are decided by X6 with strtod / strtoll / strtoull taken at their ISO C contracts and digit runs collapsed "
         "(integer part: 0, 00, 05, 5, 55; other runs: 5); whether an in-range integer is converted exactly is libc's",
